@@ -26,6 +26,7 @@ package fasthttp
 // free again once all handlers returned.
 
 import (
+	"net"
 	"fmt"
 	"net/http"
 	"sort"
@@ -63,6 +64,10 @@ type vpC16Req struct {
 	OwnStatus  int
 	// self
 	Variant string // TimeoutError | TimeoutErrorWithCode | TimeoutErrorWithResponse
+	// late wrapped / self: the handler also asks for the connection (ctx.Hijack): bit 0 before the timeout
+	// response is decided, bit 1 afterwards. The timeout response wins: such a hijack must never happen.
+	Hijack       int
+	HijackNoResp bool
 }
 
 type vpC16Scenario struct {
@@ -82,10 +87,10 @@ func (sc vpC16Scenario) String() string {
 		for _, q := range rs {
 			switch q.Mode {
 			case "wrapped":
-				fmt.Fprintf(&b, " [%s wrapped %s T=%dms code=%d sleep=%dus rounds=%d gap=%dus rel=+%d settle=%v own=%d msg=%q]",
-					q.ID, q.D, q.TimeoutMs, q.Code, q.SleepUs, q.Rounds, q.GapUs, q.ReleaseOff, q.Settle, q.OwnStatus, q.Msg)
+				fmt.Fprintf(&b, " [%s wrapped %s T=%dms code=%d sleep=%dus rounds=%d gap=%dus rel=+%d settle=%v own=%d hijack=%d/%v msg=%q]",
+					q.ID, q.D, q.TimeoutMs, q.Code, q.SleepUs, q.Rounds, q.GapUs, q.ReleaseOff, q.Settle, q.OwnStatus, q.Hijack, q.HijackNoResp, q.Msg)
 			case "self":
-				fmt.Fprintf(&b, " [%s self %s code=%d rounds=%d gap=%dus msg=%q]", q.ID, q.Variant, q.Code, q.Rounds, q.GapUs, q.Msg)
+				fmt.Fprintf(&b, " [%s self %s code=%d rounds=%d gap=%dus hijack=%d/%v msg=%q]", q.ID, q.Variant, q.Code, q.Rounds, q.GapUs, q.Hijack, q.HijackNoResp, q.Msg)
 			default:
 				fmt.Fprintf(&b, " [%s plain]", q.ID)
 			}
@@ -132,6 +137,12 @@ func vpC16Gen(t *rapid.T) vpC16Scenario {
 			case "self":
 				q.Variant = rapid.SampledFrom([]string{"TimeoutError", "TimeoutErrorWithCode", "TimeoutErrorWithResponse"}).Draw(t, "variant")
 				q.Code = rapid.SampledFrom([]int{408, 503, 504, 200, 599}).Draw(t, "code")
+			}
+			if (q.Mode == "wrapped" && q.D == "late") || q.Mode == "self" {
+				q.Hijack = rapid.SampledFrom([]int{0, 0, 0, 1, 1, 2, 3}).Draw(t, "hijack")
+				if q.Hijack != 0 {
+					q.HijackNoResp = rapid.Bool().Draw(t, "hijackNoResp")
+				}
 			}
 			rs = append(rs, q)
 		}
@@ -252,6 +263,8 @@ type vpC16Run struct {
 	started map[string]bool
 	ended   map[string]bool
 
+	hijackRan []string // ids of timed-out requests whose hijack handler was run nevertheless
+
 	slotCh   atomic.Value // chan struct{}
 	gauge    atomic.Int32
 	maxGauge atomic.Int32
@@ -316,9 +329,25 @@ func vpC16Pause(us int) {
 	}
 }
 
+// hijack asks for the connection on behalf of a request that is (going to be) answered by a timeout response.
+func (r *vpC16Run) hijack(ctx *RequestCtx, q vpC16Req) {
+	if q.HijackNoResp {
+		ctx.HijackSetNoResponse(true)
+	}
+	ctx.Hijack(func(c net.Conn) {
+		r.mu.Lock()
+		r.hijackRan = append(r.hijackRan, q.ID)
+		r.mu.Unlock()
+		c.Write([]byte("HIJACKED-BY-" + q.ID)) //nolint:errcheck
+	})
+}
+
 // mutate performs the late mutation rounds and sets the final own response of q on ctx.
 func (r *vpC16Run) mutate(ctx *RequestCtx, q vpC16Req) {
 	for n := 0; n < q.Rounds; n++ {
+		if n == 0 && q.Hijack&2 != 0 {
+			r.hijack(ctx, q)
+		}
 		ctx.SetStatusCode(500 + n)
 		ctx.Response.Header.Set("X-Late-"+q.ID, fmt.Sprint(n))
 		ctx.Response.Header.Set(fmt.Sprintf("X-Late-%s-%d", q.ID, n), "v")
@@ -347,6 +376,9 @@ func (r *vpC16Run) inner(q vpC16Req) RequestHandler {
 		ctx.Response.Header.Set("X-Early-"+q.ID, "e")
 		ctx.SetContentType("application/x-early-" + q.ID)
 		ctx.SetBodyString("early-" + q.ID)
+		if q.Hijack&1 != 0 {
+			r.hijack(ctx, q)
+		}
 		switch q.D {
 		case "late":
 			<-r.gates[q.ID]
@@ -390,6 +422,9 @@ func (r *vpC16Run) handler(ctx *RequestCtx) {
 		ctx.Response.Header.Set("X-Early-"+q.ID, "e")
 		ctx.SetContentType("application/x-early-" + q.ID)
 		ctx.SetBodyString("early-" + q.ID)
+		if q.Hijack&1 != 0 {
+			r.hijack(ctx, q)
+		}
 		goAhead := make(chan struct{})
 		r.selfWG.Add(1)
 		go func() {
@@ -843,6 +878,19 @@ func vpC16RunScenario(t *rapid.T, sc vpC16Scenario) {
 	}
 	vpCase(class, (nT > 0 && total >= 2) || nR > 0 || overlap, sc.String(), func() string { return sc.String() })
 	vpExtra(fmt.Sprintf("concurrency=%d", sc.C), 1)
+	r.mu.Lock()
+	ran := append([]string(nil), r.hijackRan...)
+	r.mu.Unlock()
+	for _, rs := range sc.Conns {
+		for _, q := range rs {
+			if q.Hijack != 0 {
+				vpExtra("timed-out-handler-asked-for-hijack", 1)
+			}
+		}
+	}
+	if len(ran) > 0 && complaint == "" {
+		complaint = fmt.Sprintf("the connection was handed to the hijack handler of %v although those requests were answered by a timeout response", ran)
+	}
 	if complaint != "" {
 		t.Fatalf("%s\nscenario: %s", complaint, sc)
 	}
